@@ -110,6 +110,9 @@ BUFS = {
     "SubtrajectoryReplayBufferPER-H1": dict(cls="SubtrajectoryReplayBufferPER", cap=3, H=1),
     "MultiTask-LAP": dict(cls="LAP", cap=2, tasks=2),
     "MultiTask-SubPER": dict(cls="SubtrajectoryReplayBufferPER", cap=3, H=1, tasks=2),
+    # ten tasks of which only 9 and 1 are ever selected besides 0: ids that collide modulo 8, so the iteration order of a
+    # set holding them depends on the order in which they were inserted
+    "MultiTask-LAP-10": dict(cls="LAP", cap=2, tasks=10, task_ids=[9, 1]),
 }
 PVALS = [[2.1, 0.3], [0.7, 0.15], 3.7]  # none is representable in float32 (a lossy save must show)
 
@@ -133,7 +136,7 @@ def alphabet(cfg):
     if prio:
         out += [("p", 0), ("p", 1), ("p", 2), ("m",)]  # index into PVALS; reset_max_priority
     if cfg.get("tasks"):
-        out += [("t", i) for i in range(cfg["tasks"])]
+        out += [("t", i) for i in cfg.get("task_ids", range(cfg["tasks"]))]
     return out
 
 
@@ -154,7 +157,7 @@ def buffer_items(tier, seed):
              ("SubtrajectoryReplayBuffer", 2))
     if q:
         for kind, n in small + (("MultiTask-LAP", 3), ("SubtrajectoryReplayBufferPER", 8), ("SubtrajectoryReplayBufferPER-H1", 8),
-                                ("MultiTask-SubPER", 16)):
+                                ("MultiTask-SubPER", 16), ("MultiTask-LAP-10", 3)):
             add(kind, 5, 2, n)
     else:
         for kind, n in small:
@@ -163,6 +166,7 @@ def buffer_items(tier, seed):
         # (the shallower search is a sub-graph of the deeper one and is not added to the state count)
         add("MultiTask-LAP", 7, 2, 1)
         add("MultiTask-LAP", 6, 3, 4, graph=False)
+        add("MultiTask-LAP-10", 6, 2, 4)
         add("SubtrajectoryReplayBufferPER-H1", 7, 2, 3)
         add("SubtrajectoryReplayBufferPER-H1", 5, 3, 4, graph=False)
         add("SubtrajectoryReplayBufferPER", 7, 2, 4)
@@ -179,6 +183,12 @@ class _NoTransfer:
     """Stand-in for jax.numpy inside replay_buffer during the bulk search (see ASSUMPTIONS)."""
 
     asarray = staticmethod(np.asarray)
+
+    def __init__(self, real):
+        self._real = real
+
+    def __getattr__(self, name):  # everything else is the real jax.numpy
+        return getattr(self._real, name)
 
 
 def inner_buffers(b):
@@ -573,7 +583,7 @@ def buffer_item(cfg, col):
     D, shard, n = cfg["D"], cfg["shard"], cfg["nshards"]
     real = rb.jnp
     if not cfg["real_jnp"]:
-        rb.jnp = _NoTransfer
+        rb.jnp = _NoTransfer(real)
     try:
         counter = [0, 0]
 
